@@ -443,6 +443,10 @@ fn files_for_invocation(invocation: &ToolInvocation) -> Result<Option<Vec<PathBu
     }
 }
 
+#[cfg(kani)]
+#[path = "/verif/harness/rip-tools/runtime.rs"]
+mod verif_kani;
+
 #[cfg(test)]
 mod tests {
     use super::*;
